@@ -7,6 +7,8 @@ from ..poly import Poly, FV, C, P
 from ..wrapcheck import site_of, sink_site
 
 LEVEL = 'proof'
+KSPEC = {'add': lambda A: A[0] + A[1], 'sub': lambda A: A[0] - A[1], 'mul': lambda A: A[0] * A[1], 'square': lambda A: A[0] * A[0],
+         'neg': lambda A: -A[0], 'id': lambda A: A[0]}
 E = 'Goldilocks::Element'
 PRIMS = [('add', lambda A: A[0] + A[1]), ('sub', lambda A: A[0] - A[1]), ('mul', lambda A: A[0] * A[1])]
 # derived API: demangled signature -> (spec over operand atoms, description)
@@ -109,7 +111,15 @@ def run(rep, tier, seed):
             try:
                 eff = harness.run_routine(wmod, name, summ, alias=al, elem={p.name: 'int' for p in ps if p.dty.startswith('ul')})
             except (Incomplete, IRError) as e:
-                rep.incomplete(tag, 'scalar-derived', site, str(e))
+                einp = [p for p in ps if p.dty == 'E const&']
+                if 'outside a contracted kernel' in str(e) and op in KSPEC and len(einp) == len([p for p in ps if p.irty[0] == 'p']) - len(outp):
+                    # the routine does raw integer arithmetic on representations: decide it on exact integers for all 64-bit inputs
+                    ins_k = [('ab'[i], 'u64', 0) for i in range(len(einp))]
+                    al_k = {i: 0 for i, p in enumerate(einp) if al and p.name in al} or None
+                    r = kprove.prove(mod, mod.find(sig), ins_k, [('u64', 0)], KSPEC[op], alias=al_k, ret_out=not outp, seed=seed)
+                    kcheck.record(rep, tag, 'scalar-derived-kernel', site, r, '%s on raw representations = exact result mod p for all 64-bit operands' % op)
+                else:
+                    rep.incomplete(tag, 'scalar-derived', site, str(e))
                 continue
             except Sink as e:
                 rep.refute(tag, 'scalar-derived', sink_site(e, site), str(e))
